@@ -498,7 +498,12 @@ def rule_text(facts, rep):
         rep.check(hir.is_local(n["args"][2], "fragment") and hir.is_local(n["args"][1], "style"), "text", r["path"], f"{which}:gets-the-loop's-own-fragment", "", loc(r, n))
     # loops run over `line` / `styled_lines` in order
     fl = [l for l in (hir.for_loop(x) for x in hir.walk(r["hir"]) if x.get("k") == "match" and x.get("src") == "ForLoopDesugar") if l]
-    srcs = [hirpp.expr(hir.peel(l[1])) for l in fl]
+    def loop_src(e):
+        e = hir.peel(e)
+        if hir.is_call(e, "core::slice::<impl [T]>::iter") or hir.is_call(e, "IntoIterator::into_iter"):
+            e = hir.peel(e["args"][0])          # `for x in xs.iter()` is `for x in xs`
+        return hirpp.expr(e)
+    srcs = [loop_src(l[1]) for l in fl]
     rep.check(srcs.count("$line") == 2 and "$styled_lines" in srcs, "text", r["path"], "loops-over-every-line-and-fragment", f"{srcs}", loc(r))
     # order: invert pre-pass, then the sheet
     order = {id(n): i for i, n in enumerate(hir.walk(r["hir"]))}
